@@ -118,6 +118,31 @@ func (f *Fam) Gen(r *rand.Rand, i int) string {
 	if r.Intn(5) == 0 {
 		return f.genWire(r)
 	}
+	if r.Intn(12) == 0 { // the text form of a coin, well formed and not
+		if r.Intn(4) == 0 {
+			return "coin.text " + coin()
+		}
+		amt := genBig(r)
+		amt.Abs(amt)
+		num := amt.String()
+		switch r.Intn(8) {
+		case 0:
+			num = "0" + num // a leading zero announces octal
+		case 1:
+			num = fmt.Sprintf("0%o", r.Int63())
+		case 2:
+			num = []string{"", "0", "00", "08", "0x1f", "1_000", "-5", "+5", "1e3", "٣"}[r.Intn(10)]
+		}
+		den := denoms[r.Intn(len(denoms))]
+		if r.Intn(6) == 0 {
+			den = []string{"Abc", "ab", "abcdefghijklmnopq", "a_b", "1ab", "abc ", "ab\tc", "upokt,1upokt"}[r.Intn(8)]
+		}
+		sp := []string{"", "", "", " ", "\t \n", "\v\f\r"}[r.Intn(6)]
+		pre := []string{"", "", " ", "\n\t"}[r.Intn(4)]
+		post := []string{"", "", " ", "\r\n"}[r.Intn(4)]
+		txt := pre + num + sp + den + post
+		return "coin.parse " + hx([]byte(txt))
+	}
 	switch r.Intn(15) {
 	case 0:
 		return fmt.Sprintf("uv %d", genU64(r))
@@ -299,6 +324,23 @@ func (f *Fam) Exec(op string) (obs string, fails []common.Failure) {
 			}
 			return "ok " + i.String()
 		}), nil
+	case "coin.parse": // the text form: sdk.ParseCoin
+		return try(func() string {
+			c, err := sdk.ParseCoin(string(unhx(w[1])))
+			if err != nil {
+				return "err"
+			}
+			if back, err2 := sdk.ParseCoin(c.String()); err2 != nil || back.Denom != c.Denom || !back.Amount.Equal(c.Amount) {
+				fail("roundtrip", "C20:coin-text-roundtrip", fmt.Sprintf("%s: parsed %v, printed %q, parsed again %v (%v)", op, c, c.String(), back, err2))
+			}
+			return fmt.Sprintf("ok %s:%s", hx([]byte(c.Denom)), intStr(c.Amount))
+		}), fails
+	case "coin.text": // sdk.Coin.String
+		c := parseCoin(w[1])
+		if c.Amount.IsNegative() {
+			return "bad-op", nil
+		}
+		return try(func() string { return hx([]byte(c.String())) }), nil
 	case "coin":
 		c := parseCoin(w[1])
 		bz := cdc.MustMarshalBinaryBare(c)
